@@ -66,7 +66,8 @@ WithParams(zlib, level, strategy, wbits) ==
   LET wb == MinI(wbits, 15)
       lv == MinI(level, 10)
       ls == LimitLevel(wb, lv, strategy)
-  IN [flags |-> CreateFlags(ls[1], IF zlib THEN wb ELSE -wb, ls[2]), wbmax |-> wb,
+      \* change_window_bits_from_format: the sign carries the format (0 maps to 1 for zlib)
+  IN [flags |-> CreateFlags(ls[1], IF zlib THEN MaxI(wb, 1) ELSE -wb, ls[2]), wbmax |-> wb,
       elevel |-> ls[1], estrategy |-> ls[2]]
 
 \* compress_to_vec[_zlib](input, level: u8) and CompressorOxide::new(flags)
